@@ -58,6 +58,7 @@ type genState struct {
 	added   map[string]int // table -> number of extra columns added
 	// repository switch (CLI check only): one top-level SET @@REPOSITORY TO 'alt' at a drawn position
 	canSwitch bool
+	inFunc    int
 	switched  bool
 	nf        int
 }
@@ -133,7 +134,7 @@ func (g *genState) leaf() node {
 			return node{ID: id, Kind: "dml", SQL: fmt.Sprintf(fw.PickU(t, "switchProbeWriteStmt", switchProbeWrites), id)}
 		}
 	}
-	if g.depth > 0 && fw.Pct(t, "nestedExit", 3) {
+	if g.depth > 0 && g.inFunc == 0 && fw.Pct(t, "nestedExit", 3) {
 		return node{ID: g.id(), Kind: "exit", SQL: "EXIT"}
 	}
 	if fw.Pct(t, "probe", 12) {
@@ -143,6 +144,9 @@ func (g *genState) leaf() node {
 			return node{ID: g.id(), Kind: "dml", SQL: fmt.Sprintf(fw.PickU(t, "probeMultiStmt", probeMultiStmts), f)}
 		}
 		return node{ID: g.id(), Kind: "dml", SQL: fw.PickU(t, "probeStmt", probeStmts)}
+	}
+	if fw.Pct(t, "extraCommit", 9) {
+		return node{ID: g.id(), Kind: "commit", SQL: "COMMIT"}
 	}
 	tn, isTemp := g.target()
 	n := node{ID: g.id(), Kind: "dml", Temp: isTemp}
@@ -205,16 +209,36 @@ func (g *genState) stmts(max int) []node {
 	for i := 0; i < n; i++ {
 		if g.depth < 2 && fw.Pct(t, "block", 15) {
 			g.depth++
-			if fw.Pct(t, "isIf", 60) {
+			switch fw.Weighted(t, "blockKind", []int{40, 22, 16, 11, 11}) {
+			case 0:
 				b := node{ID: g.id(), Kind: "if", Cond: fw.Pct(t, "cond", 50)}
 				b.Body = g.stmts(3)
 				if fw.Pct(t, "else", 60) {
 					b.Else = g.stmts(3)
 				}
 				out = append(out, b)
-			} else {
+			case 1:
 				b := node{ID: g.id(), Kind: "while", Loops: fw.Range(t, "loops", 0, 2)}
 				b.Body = g.stmts(3)
+				out = append(out, b)
+			case 2:
+				// the statements run inside a user-defined function invoked once (EXIT is not allowed in a function body)
+				b := node{ID: g.id(), Kind: "func"}
+				g.inFunc++
+				b.Body = g.stmts(3)
+				g.inFunc--
+				out = append(out, b)
+			case 3:
+				// the statements run once per row of a cursor over a constant query
+				b := node{ID: g.id(), Kind: "curloop", Loops: fw.Range(t, "curRows", 1, 2)}
+				b.Body = g.stmts(3)
+				out = append(out, b)
+			default:
+				b := node{ID: g.id(), Kind: "case", Cond: fw.Pct(t, "caseCond", 50)}
+				b.Body = g.stmts(3)
+				if fw.Pct(t, "caseElse", 60) {
+					b.Else = g.stmts(3)
+				}
 				out = append(out, b)
 			}
 			g.depth--
@@ -383,6 +407,30 @@ func render(ns []node, b *strings.Builder, indent string) {
 			fmt.Fprintf(b, "%sVAR @w%d := 0;\n%sWHILE @w%d < %d DO\n", indent, n.ID, indent, n.ID, n.Loops)
 			render(n.Body, b, indent+"  ")
 			fmt.Fprintf(b, "%s  @w%d := @w%d + 1;\n%sEND WHILE;\n%sDISPOSE @w%d;\n", indent, n.ID, n.ID, indent, indent, n.ID)
+		case "func":
+			fmt.Fprintf(b, "%sDECLARE fn%d FUNCTION () AS BEGIN\n", indent, n.ID)
+			render(n.Body, b, indent+"  ")
+			fmt.Fprintf(b, "%s  RETURN 1;\n%sEND;\n%sVAR @fr%d := fn%d();\n%sDISPOSE @fr%d;\n%sDISPOSE FUNCTION fn%d;\n", indent, indent, indent, n.ID, n.ID, indent, n.ID, indent, n.ID)
+		case "curloop":
+			q := "SELECT 1 AS i"
+			if n.Loops > 1 {
+				q = "SELECT 1 AS i UNION ALL SELECT 2"
+			}
+			fmt.Fprintf(b, "%sDECLARE cl%d CURSOR FOR %s;\n%sOPEN cl%d;\n%sVAR @ci%d;\n%sWHILE @ci%d IN cl%d DO\n", indent, n.ID, q, indent, n.ID, indent, n.ID, indent, n.ID, n.ID)
+			render(n.Body, b, indent+"  ")
+			fmt.Fprintf(b, "%sEND WHILE;\n%sCLOSE cl%d;\n%sDISPOSE CURSOR cl%d;\n%sDISPOSE @ci%d;\n", indent, indent, n.ID, indent, n.ID, indent, n.ID)
+		case "case":
+			cond := "1 = 1"
+			if !n.Cond {
+				cond = "1 = 0"
+			}
+			fmt.Fprintf(b, "%sCASE\n%sWHEN %s THEN\n", indent, indent, cond)
+			render(n.Body, b, indent+"  ")
+			if len(n.Else) > 0 {
+				fmt.Fprintf(b, "%sELSE\n", indent)
+				render(n.Else, b, indent+"  ")
+			}
+			fmt.Fprintf(b, "%sEND CASE;\n", indent)
 		default:
 			if n.Kind == "exit" {
 				// the marker precedes EXIT so that the trace shows that it was reached
@@ -399,10 +447,10 @@ func render(ns []node, b *strings.Builder, indent string) {
 func leaves(ns []node, m map[int]node) {
 	for _, n := range ns {
 		switch n.Kind {
-		case "if":
+		case "if", "case":
 			leaves(n.Body, m)
 			leaves(n.Else, m)
-		case "while":
+		case "while", "func", "curloop":
 			leaves(n.Body, m)
 		default:
 			m[n.ID] = n
@@ -795,6 +843,7 @@ func checkCLI(c progCase) (fw.Outcome, *fw.Violation) {
 	lc := lastCommit(tr, lv)
 	abnormal := res.Code != 0 || len(tr) < full
 	o.Classes = append(o.Classes, "end="+strings.SplitN(endKind, ":", 2)[0], fmt.Sprintf("commits=%d", countKind(tr, lv, "commit")), fmt.Sprintf("abnormal=%v", abnormal))
+	o.Classes = append(o.Classes, blockClassList(c.Prog)...)
 	changesAfter := 0
 	for _, id := range tr[lc:] {
 		k := lv[id].Kind
@@ -869,6 +918,30 @@ func checkCLI(c progCase) (fw.Outcome, *fw.Violation) {
 	return o, nil
 }
 
+// blockClasses labels the kinds of blocks a program contains (generator histogram).
+func blockClasses(ns []node, seen map[string]bool) {
+	for _, n := range ns {
+		switch n.Kind {
+		case "if", "case", "while", "func", "curloop":
+			seen["block="+n.Kind] = true
+			blockClasses(n.Body, seen)
+			blockClasses(n.Else, seen)
+		}
+	}
+}
+
+func blockClassList(ns []node) []string {
+	seen := map[string]bool{}
+	blockClasses(ns, seen)
+	var out []string
+	for _, k := range []string{"block=if", "block=case", "block=while", "block=func", "block=curloop"} {
+		if seen[k] {
+			out = append(out, k)
+		}
+	}
+	return out
+}
+
 func countKind(tr []int, lv map[int]node, kind string) int {
 	n := 0
 	for _, id := range tr {
@@ -884,14 +957,16 @@ func countLeavesExecutedFully(ns []node, lv map[int]node) int {
 	total := 0
 	for _, n := range ns {
 		switch n.Kind {
-		case "if":
+		case "if", "case":
 			if n.Cond {
 				total += countLeavesExecutedFully(n.Body, lv)
 			} else {
 				total += countLeavesExecutedFully(n.Else, lv)
 			}
-		case "while":
+		case "while", "curloop":
 			total += n.Loops * countLeavesExecutedFully(n.Body, lv)
+		case "func":
+			total += countLeavesExecutedFully(n.Body, lv)
 		default:
 			total++
 		}
@@ -1015,6 +1090,7 @@ func checkInProc(c progCase) (fw.Outcome, *fw.Violation) {
 		}
 	}
 	o.Classes = append(o.Classes, fmt.Sprintf("normal=%v", normal), fmt.Sprintf("commits=%d", countKind(tr, lv, "commit")), fmt.Sprintf("rollbacks=%d", countKind(tr, lv, "rollback")))
+	o.Classes = append(o.Classes, blockClassList(c.Prog)...)
 	if tempAfter > 0 && !normal || (countKind(tr, lv, "rollback") > 0 && tempAfter >= 0 && len(c.Temps) > 0) {
 		o.Fingerprint = fmt.Sprintf("n=%v|c%d|r%d|%s", normal, countKind(tr, lv, "commit"), countKind(tr, lv, "rollback"), kindsAfterCommit(tr, lv))
 	}
